@@ -194,26 +194,6 @@ fn hole() -> u8 {
     b
 }
 
-macro_rules! template_harness {
-    ($name:ident, $tmpl:expr) => {
-        #[kani::proof]
-        #[kani::unwind(19)]
-        #[kani::stub(core::slice::memchr::memchr, naive_memchr)]
-        pub fn $name() {
-            // '?' marks a hole
-            const T: &[u8] = $tmpl;
-            let mut b = [0u8; T.len()];
-            let mut i = 0;
-            while i < T.len() {
-                b[i] = if T[i] == b'?' { hole() } else { T[i] };
-                i += 1;
-            }
-            check_choice(&b);
-        }
-    };
-}
-template_harness!(c13_t_tmpl_xx_two_psk, b"XXpsk?+psk?");
-
 /// The real `NoiseParams::from_str` on whole names with symbolic holes at the separators / after the name:
 /// accepted iff the grammar accepts; the parsed value preserves the input verbatim and names the components.
 fn check_name(bytes: &[u8]) {
@@ -290,97 +270,216 @@ modifier_template!(c13_q_modtmpl_fallback_first, b"?allback");
 modifier_template!(c13_t_modtmpl_psk_three, b"psk???");
 modifier_template!(c13_t_modtmpl_ppsk, b"?psk1");
 
-/// Modifier LIST templates (duplicate detection across non-adjacent positions, empty segments).
-macro_rules! modlist_template {
-    ($name:ident, $tmpl:expr) => {
+/// Separator-mask replacement for `core::slice::memchr::memchr`, for templates whose separator positions are
+/// CONCRETE (holes are assumed not to be the separator). `str::split(char)` always hands memchr the suffix
+/// `haystack[finger..]` of the string being split, so the offset of `text` inside the template is
+/// `T.len() - text.len()`, and under the harness's assumption "byte i is the separator iff T[i] is" the first
+/// separator of the TEMPLATE at or after that offset IS memchr's contractual result. Unlike `naive_memchr` the result
+/// is a constant for the solver, so the splitting machinery, the `Vec` of modifiers and the duplicate scan run on
+/// concrete segment boundaries and only the hole bytes stay symbolic (with `naive_memchr` the same query does not
+/// finish in 10 minutes; with this stub it takes seconds). The stub asserts the needle is the separator and that
+/// the haystack is a suffix. The real memchr runs in every native replay. (The template is a `const`, not a
+/// `static mut`: with a mutable static mask CBMC lost track of the `Vec` in `from_str` and reported spurious
+/// pointer failures - such runs are classified inconclusive by the runner, never as a verdict.)
+macro_rules! modlist_mask_template {
+    ($name:ident, $stubmod:ident, $tmpl:expr, $unw:expr, $both:expr) => {
+        mod $stubmod {
+            pub const T: &[u8] = $tmpl;
+            pub fn memchr(x: u8, text: &[u8]) -> Option<usize> {
+                assert!(x == b'+', "C13 harness: memchr needle is not the template's separator");
+                assert!(text.len() <= T.len(), "C13 harness: memchr haystack is not a suffix of the template");
+                let off = T.len() - text.len();
+                let mut i = 0;
+                while i < text.len() {
+                    if T[off + i] == b'+' {
+                        return Some(i);
+                    }
+                    i += 1;
+                }
+                None
+            }
+        }
         #[kani::proof]
-        #[kani::unwind(19)]
-        #[kani::stub(core::slice::memchr::memchr, naive_memchr)]
+        #[kani::unwind($unw)]
+        #[kani::stub(core::slice::memchr::memchr, $stubmod::memchr)]
         pub fn $name() {
             const T: &[u8] = $tmpl;
             let mut b = [0u8; T.len()];
             let mut i = 0;
             while i < T.len() {
-                b[i] = if T[i] == b'?' { hole() } else { T[i] };
-                i += 1;
-            }
-            // holes are not separators here (the split points stay concrete; separator holes have their own template)
-            let mut i = 0;
-            while i < T.len() {
-                if T[i] == b'?' && T.len() != 9 {
+                if T[i] == b'?' {
+                    b[i] = hole();
                     kani::assume(b[i] != b'+');
+                } else {
+                    b[i] = T[i];
                 }
                 i += 1;
             }
             let s = unsafe { core::str::from_utf8_unchecked(&b) };
             let r: Result<HandshakeModifierList, Error> = s.parse();
             let want = grammar::modifiers(&b);
-            kani::cover!(true, "C13 modifier list template reached");
+            // templates that no filling makes valid (empty segments) have one witness, the others two
+            kani::cover!(r.is_ok() || !$both, "C13 modifier list template accepted reachable");
+            kani::cover!(r.is_err() && want.is_none(), "C13 modifier list template rejected reachable");
             assert!(r.is_ok() == want.is_some(), "C13: modifier list accepted iff the grammar accepts it (non-duplicate, '+'-separated)");
             assert!(r.is_ok() || is_pattern_err(&r), "C13: rejection must be a pattern error");
             if let (Ok(l), Some((w, n))) = (&r, &want) {
                 assert!(same_mods(&l.list, w, *n), "C13: parsed modifiers differ from the named ones");
             }
+            core::mem::forget(r);
         }
     };
 }
-modlist_template!(c13_t_modlist_tmpl_aba, b"psk1+psk2+psk?");
+modlist_mask_template!(c13_q_modlist_mask_two, mask_two, b"psk?+psk?", 12, true);
+modlist_mask_template!(c13_q_modlist_mask_three, mask_three, b"psk?+psk?+psk?", 16, true);
+modlist_mask_template!(c13_q_modlist_mask_empty_mid, mask_e1, b"psk?++psk?", 12, false);
+modlist_mask_template!(c13_q_modlist_mask_empty_first, mask_e2, b"+psk?", 12, false);
+modlist_mask_template!(c13_t_modlist_mask_empty_last, mask_e3, b"psk?+", 12, false);
+modlist_mask_template!(c13_q_modlist_mask_fallback, mask_fallback, b"psk?+fallbac?+psk?", 20, true);
+modlist_mask_template!(c13_t_modlist_mask_four, mask_four, b"psk?+psk?+psk?+psk?", 21, true);
+modlist_mask_template!(c13_q_modlist_mask_free3, mask_free3, b"????+????+????", 16, true);
 
-/// Whole names WITHOUT modifiers (the handshake field then never reaches the '+'-splitting machinery) and with holes
-/// that are not separators: the five-way split stays concrete, the per-field decisions are symbolic. Checks
-/// acceptance, that `name` is preserved verbatim and that the components are the named ones.
-macro_rules! plain_name_harness {
-    ($name:ident, $tmpl:expr) => {
+/// Two-level separator stub for whole names and handshake fields: needle '_' is searched in a suffix of the whole
+/// template, needle '+' in a suffix of the handshake field (which ends at the template's second '_', or at its end
+/// when the template is a bare handshake field). Same justification as above; holes are neither '_' nor '+'.
+macro_rules! sep_stub {
+    ($stubmod:ident, $tmpl:expr) => {
+        mod $stubmod {
+            pub const T: &[u8] = $tmpl;
+            pub const fn field_end() -> usize {
+                let mut seen = 0;
+                let mut i = 0;
+                while i < T.len() {
+                    if T[i] == b'_' {
+                        seen += 1;
+                        if seen == 2 {
+                            return i;
+                        }
+                    }
+                    i += 1;
+                }
+                T.len()
+            }
+            pub const E: usize = field_end();
+            pub fn memchr(x: u8, text: &[u8]) -> Option<usize> {
+                assert!(x == b'+' || x == b'_', "C13 harness: memchr needle is not a separator of the template");
+                let end = if x == b'_' { T.len() } else { E };
+                assert!(text.len() <= end, "C13 harness: memchr haystack is not a suffix of the template / handshake field");
+                let off = end - text.len();
+                let mut i = 0;
+                while i < text.len() {
+                    if T[off + i] == x {
+                        return Some(i);
+                    }
+                    i += 1;
+                }
+                None
+            }
+        }
+    };
+}
+
+fn fill<const N: usize>(t: &[u8; N]) -> [u8; N] {
+    let mut b = [0u8; N];
+    let mut i = 0;
+    while i < N {
+        if t[i] == b'?' {
+            b[i] = hole();
+            kani::assume(b[i] != b'+' && b[i] != b'_');
+        } else {
+            b[i] = t[i];
+        }
+        i += 1;
+    }
+    b
+}
+
+/// `HandshakeChoice::from_str` (longest-prefix pattern split, then the modifier list) on templates with symbolic holes.
+macro_rules! choice_mask_template {
+    ($name:ident, $stubmod:ident, $tmpl:expr, $unw:expr) => {
+        sep_stub!($stubmod, $tmpl);
         #[kani::proof]
-        #[kani::unwind(40)]
-        #[kani::stub(core::slice::memchr::memchr, naive_memchr)]
+        #[kani::unwind($unw)]
+        #[kani::stub(core::slice::memchr::memchr, $stubmod::memchr)]
+        pub fn $name() {
+            let b = fill($tmpl);
+            let s = unsafe { core::str::from_utf8_unchecked(&b) };
+            let r: Result<HandshakeChoice, Error> = s.parse();
+            let want = grammar::handshake(&b);
+            kani::cover!(r.is_ok(), "C13 handshake template accepted reachable");
+            kani::cover!(r.is_err() && want.is_none(), "C13 handshake template rejected reachable");
+            assert!(r.is_ok() == want.is_some(), "C13: handshake field accepted iff the grammar accepts it");
+            assert!(r.is_ok() || is_pattern_err(&r), "C13: rejection must be a pattern error");
+            if let (Ok(c), Some((p, w, n))) = (&r, &want) {
+                assert!(c.pattern.as_str().as_bytes() == p.name().as_bytes(), "C13: parsed pattern differs from the named one");
+                assert!(same_mods(&c.modifiers.list, w, *n), "C13: parsed modifiers differ from the named ones");
+            }
+            core::mem::forget(r);
+        }
+    };
+}
+choice_mask_template!(c13_q_choice_mask_xx_two_psk, mask_c1, b"XXpsk?+psk?", 14);
+// (a hole inside the pattern name makes the pattern/modifier boundary symbolic: "X?psk1+psk?" runs out of memory after
+// 9 minutes of symbolic execution - not decided; the pattern split itself is c13_q_pattern4 / c13_t_pattern5)
+choice_mask_template!(c13_q_choice_mask_three, mask_c4, b"X1X1psk?+psk?+psk?", 21);
+choice_mask_template!(c13_q_choice_mask_fallback, mask_c6, b"XXfallbac?+psk?", 18);
+
+/// The real `NoiseParams::from_str` on whole-name templates: accepted iff the grammar accepts; the parsed value keeps
+/// the input verbatim and names exactly the components the fields name. Only templates whose symbolic decision is a
+/// REJECTION inside the five-way split finish (minutes); a whole name with a symbolic accept/reject decision in a field
+/// does not finish in 10 minutes even with concrete separators (the error paths drop a String and a Vec under a
+/// symbolic condition) - those stay outside what is decided, see DESIGN.md.
+macro_rules! name_mask_template {
+    ($name:ident, $stubmod:ident, $tmpl:expr, $unw:expr, $both:expr) => {
+        sep_stub!($stubmod, $tmpl);
+        #[kani::proof]
+        #[kani::unwind($unw)]
+        #[kani::stub(core::slice::memchr::memchr, $stubmod::memchr)]
         pub fn $name() {
             const T: &[u8] = $tmpl;
-            let mut b = [0u8; T.len()];
-            let mut i = 0;
-            while i < T.len() {
-                b[i] = if T[i] == b'?' { hole() } else { T[i] };
-                if T[i] == b'?' {
-                    kani::assume(b[i] != b'_' && b[i] != b'+');
+            let b = fill($tmpl);
+            let s = unsafe { core::str::from_utf8_unchecked(&b) };
+            let r: Result<NoiseParams, Error> = s.parse();
+            let want = grammar::name_ok(&b);
+            // templates that no filling makes valid have one witness (rejection), the others two
+            kani::cover!(r.is_ok() || !$both, "C13 name template accepted reachable");
+            kani::cover!(r.is_err() && !want, "C13 name template rejected reachable");
+            assert!(r.is_ok() == want, "C13: protocol name accepted iff it has the form Noise_<handshake>_<dh>_<cipher>_<hash>");
+            assert!(r.is_ok() || is_pattern_err(&r), "C13: rejection must be a pattern error");
+            if let Ok(p) = r {
+                assert!(p.name.as_bytes() == &b[..], "C13: the parsed value does not preserve the name verbatim");
+                assert!(p.base == BaseChoice::Noise, "C13: base component");
+                // field boundaries are those of the template (concrete)
+                let mut bounds = [0usize; 6];
+                let mut nb = 1;
+                let mut i = 0;
+                while i < T.len() {
+                    if T[i] == b'_' && nb < 5 {
+                        bounds[nb] = i + 1;
+                        nb += 1;
+                    }
+                    i += 1;
                 }
-                i += 1;
+                bounds[5] = T.len() + 1;
+                let f = |k: usize| &b[bounds[k]..bounds[k + 1] - 1];
+                match grammar::handshake(f(1)) {
+                    Some((pat, w, n)) => {
+                        assert!(p.handshake.pattern.as_str().as_bytes() == pat.name().as_bytes(), "C13: parsed pattern differs from the named one");
+                        assert!(same_mods(&p.handshake.modifiers.list, &w, n), "C13: parsed modifiers differ from the named ones");
+                    },
+                    None => assert!(false, "C13: accepted a name whose handshake field the grammar rejects"),
+                }
+                assert!(grammar::dh(f(2)) == Some(match p.dh { DHChoice::Curve25519 => 0, _ => 1 }), "C13: dh component");
+                assert!(grammar::cipher(f(3)) == Some(match p.cipher { CipherChoice::ChaChaPoly => 0, _ => 1 }), "C13: cipher component");
+                assert!(
+                    grammar::hash(f(4)) == Some(match p.hash { HashChoice::SHA256 => 0, HashChoice::SHA512 => 1, HashChoice::Blake2s => 2, HashChoice::Blake2b => 3 }),
+                    "C13: hash component"
+                );
+                core::mem::forget(p);
             }
-            check_name(&b);
         }
     };
 }
-plain_name_harness!(c13_t_plain_name_hash, b"Noise_NN_25519_AESGCM_SHA25?");
-
-/// List-level logic (duplicates at non-adjacent positions, '+' structure) cannot be decided with symbolic bytes
-/// (see above: minutes to out-of-memory). These are CONCRETE list shapes run through the real parser and the
-/// reference recogniser inside one query with no symbolic variable - a regression-style complement, not part of the
-/// bounded "for all strings up to N bytes" claim.
-#[kani::proof]
-#[kani::unwind(19)]
-#[kani::stub(core::slice::memchr::memchr, naive_memchr)]
-pub fn c13_t_modlist_concrete_shapes() {
-    const SHAPES: [&[u8]; 8] = [
-        b"psk1+psk2+psk1",
-        b"psk1+fallback+psk1",
-        b"psk0+psk2+psk3",
-        b"fallback+psk1",
-        b"psk1+psk1",
-        b"psk1++psk2",
-        b"+psk1",
-        b"psk1+",
-    ];
-    let mut k = 0;
-    while k < 8 {
-        let b = SHAPES[k];
-        let s = unsafe { core::str::from_utf8_unchecked(b) };
-        let r: Result<HandshakeModifierList, Error> = s.parse();
-        let want = grammar::modifiers(b);
-        assert!(r.is_ok() == want.is_some(), "C13: modifier list (concrete shape) accepted iff the grammar accepts it");
-        assert!(r.is_ok() || is_pattern_err(&r), "C13: rejection must be a pattern error");
-        if let (Ok(l), Some((w, n))) = (&r, &want) {
-            assert!(same_mods(&l.list, w, *n), "C13: parsed modifiers differ from the named ones");
-        }
-        k += 1;
-    }
-    kani::cover!(true, "C13 concrete list shapes reached");
-}
+name_mask_template!(c13_q_name_mask_extra_field, mask_n3, b"Noise_NN_25519_AESGCM_SHA512_?", 33, false);
+name_mask_template!(c13_t_name_mask_too_few, mask_n4, b"Noise_NN_25519_AESGC?", 24, false);
+name_mask_template!(c13_t_name_mask_empty_field, mask_n6, b"Noise_NN__AESGCM_SHA25?", 26, false);
